@@ -100,6 +100,7 @@ Conforms(c, o) ==
   \cup Clause("NoSpuriousError",  (~Fails(c)) => (o.nerr = 0 /\ o.nother = 0 /\ ~o.hung /\ o.done))
   \cup Clause("Http200WithMarker", IsHttp(c.tr) => \A r \in Resp(o) : r.err => (r.status = 200 /\ r.marker # ""))
   \cup Clause("MarkerOnlyOnFailure", IsHttp(c.tr) => \A r \in Resp(o) : (~r.err) => r.marker = "")
+  \* not a clause of the statement (worker reuse after a failure is C04/C14): the driver reports it as drift
   \cup Clause("SuccessAfterFailure", (IsHttp(c.tr) /\ Fails(c) /\ ~o.hung) => o.follow = "ok")
   \cup Clause("FailureIsMarked",  (IsHttp(c.tr) /\ Fails(c) /\ ~o.hung) => \E r \in Resp(o) : r.err)
   \cup Clause("SuccessUnmarked",  (IsHttp(c.tr) /\ ~Fails(c)) => \A r \in Resp(o) : (r.marker = "" /\ ~r.err /\ r.status = 200))
